@@ -88,6 +88,7 @@ class Renames:
             digests = {}
         baseline = set(digests.pop('*functions', {}))
         digests.pop('*vocab', None)
+        digests.pop('*defaults', None)
         # (the model's own rename aliases make old keys answer too: look at the real table)
         orphans = {k: d for k, d in digests.items() if not dict.__contains__(model.funcs, k)}
         for old, newk in getattr(model, 'renamed', {}).items():
